@@ -263,7 +263,7 @@ def _outside_domain(bounds, A, b, f, elsize, n_sp, rel):
 
 # ------------------------------------------------------------------------------------------------ property
 
-DOC_REFUSALS = ("Non-contiguous access is not possible", "Access patterns with symbols", "unsupported kernel", "Unsupported type")
+DOC_REFUSALS = ("Non-contiguous access is not possible", "Access pattern bounds do not fit this streamer", "Access patterns with symbols", "unsupported kernel", "Unsupported type")
 
 
 def prop(r):
